@@ -18,8 +18,9 @@ type c05Case struct {
 
 func init() {
 	mc.Register(&mc.Property{
-		ID:    "C05",
-		Level: "exploration",
+		ID:     "C05",
+		Word32: true,
+		Level:  "exploration",
 		Rule: "E1 complete enumeration of the whole domain: every height h in [0,30] × every index in [0, 2^(h+1)-1) — 2^32-33 pairs. Oracle: pre-order successor on (prefix,length) walked in index order (shards start from the node found by descending by subtree sizes); the path word is assembled by hand. " +
 			"Both directions are judged against the walk: IndexToPath(h,i) == node_i and PathToIndex(2^(h+1)-1, node_i) == i. A case is one (h,index) pair; non-trivial when h > 4 (not answered from the lookup table alone) and 0 < index.",
 		Assumptions: []string{"the successor function is the definition of pre-order on the full tree"},
